@@ -1,7 +1,7 @@
 (* C06: lemmas about how the observations used by the wake invariant change *)
 From stdpp Require Import list numbers option.
 From RecordUpdate Require Import RecordUpdate.
-From L2 Require Import Model Base Own Jobs Wake WakeInv.
+From L2 Require Import Model Base Own Jobs DwInv Wake WakeInv.
 #[global] Unset Lia Cache.
 
 Lemma fsat_upd s s' a old new c fr :
@@ -247,6 +247,7 @@ Proof. by destruct st. Qed.
 
 (* ---------- the general transfer lemma for a runner's obligation under a step of another thread ---------- *)
 Definition unp (s : state) (c : nat) : bool := tokb s c || posb (np (is_unpark c) s).
+Definition isrunner (s : state) (c : nat) : Prop := exists fr, fsat s c fr /\ marker fr = true.
 Record tview (s s' : state) : Prop := {
   tv_hsusp : forall e, hsusp s = Some e -> hsusp s' = Some e;
   tv_awoken : awoken s = true -> awoken s' = true;
@@ -254,19 +255,20 @@ Record tview (s s' : state) : Prop := {
   tv_gt : forall c e, gt s c e = true ->
             gt s' c e = true \/ (is_wfu s'.(qs) = false /\ posb (np (is_unpark c) s') = true /\ (is_wfu s.(qs) = true \/ awoken s' = true));
   tv_wfu : is_wfu s'.(qs) = true -> is_wfu s.(qs) = true;
-  tv_unp : forall c, is_wfu s.(qs) = false -> unp s c = true -> unp s' c = true;
-  tv_gd : forall e d, gd s e d = true -> gd s' e d = true;
+  tv_unp : forall c, isrunner s c -> is_wfu s.(qs) = false -> unp s c = true -> unp s' c = true;
+  tv_gd : forall e d, np (carries d) s > 0 -> gd s e d = true -> gd s' e d = true;
 }.
-Lemma frame_ok_transfer s s' c fr : tview s s' -> (workfr fr = true -> running s.(qs) = true) ->
+Lemma frame_ok_transfer s s' c fr : tview s s' -> fsat s c fr -> isrunner s c -> (workfr fr = true -> running s.(qs) = true) ->
   frame_ok s c fr = true -> frame_ok s' c fr = true.
 Proof.
-  intros [H1 H2 H3 H4 H5 H6 H7] H0. unfold unp in H6.
+  intros [H1 H2 H3 H4 H5 H6 H7] Hfs Hrc H0. specialize (H6 c Hrc). unfold unp in H6.
+  assert (Hcar : forall d, carries d fr = true -> np (carries d) s > 0) by (intros d Hd; apply np_pos_fsat; by exists c, fr).
   destruct fr; cbn; try done; cbn in H0.
-  - (* FDQrequeue *) destruct (susp j); [|done]. apply H7.
-  - destruct (hsusp s) as [e|] eqn:E; [|done]. rewrite (H1 e eq_refl). apply H7.
-  - destruct (hsusp s) as [e|] eqn:E; [|done]. rewrite (H1 e eq_refl). apply H7.
-  - destruct (hsusp s) as [e|] eqn:E; [|done]. rewrite (H1 e eq_refl). apply H7.
-  - destruct (hsusp s) as [e|] eqn:E; [|done]. rewrite (H1 e eq_refl). apply H7.
+  - (* FDQrequeue *) destruct (susp j); [|done]. apply H7, Hcar. cbn. by apply bool_decide_eq_true.
+  - destruct (hsusp s) as [e|] eqn:E; [|done]. rewrite (H1 e eq_refl). apply H7, Hcar. cbn. by apply bool_decide_eq_true.
+  - destruct (hsusp s) as [e|] eqn:E; [|done]. rewrite (H1 e eq_refl). apply H7, Hcar. cbn. by apply bool_decide_eq_true.
+  - destruct (hsusp s) as [e|] eqn:E; [|done]. rewrite (H1 e eq_refl). apply H7, Hcar. cbn. by apply bool_decide_eq_true.
+  - destruct (hsusp s) as [e|] eqn:E; [|done]. rewrite (H1 e eq_refl). apply H7, Hcar. cbn. by apply bool_decide_eq_true.
   - (* FROpend *) destruct (susp j) as [e|]; [|done]. rewrite !orb_true_iff. intros [Ha|Hg]; [left; by apply H2|].
     destruct (H4 _ _ Hg) as [?|(_ & _ & [Hw|?])]; [by right| |by left].
     specialize (H0 eq_refl). destruct (qs s); done.
@@ -302,18 +304,20 @@ Proof. intros Ha Hs H. pose proof (np_upd P s s' a old new Ha Hs). lia. Qed.
 Lemma posb_mono n m : n <= m -> posb n = true -> posb m = true.
 Proof. destruct n, m; cbn; try done; lia. Qed.
 
+Definition usedw (w : waker) : bool := match w with WQueue | WThread _ | WDrain _ => true | _ => false end.
 Lemma tview_mono s s' :
   s'.(qs) = s.(qs) -> (forall e, hsusp s = Some e -> hsusp s' = Some e) ->
   (forall e w, unfreg s e w = true -> unfreg s' e w = true) ->
-  (forall w, np (is_wake w) s <= np (is_wake w) s') -> (forall c, np (is_unpark c) s <= np (is_unpark c) s') ->
-  (forall c, tokb s c = true -> tokb s' c = true) -> (forall d, dw_woken s d = true -> dw_woken s' d = true) ->
+  (forall w, usedw w = true -> np (is_wake w) s <= np (is_wake w) s') ->
+  (forall c, isrunner s c -> unp s c = true -> unp s' c = true) -> (forall d, dw_woken s d = true -> dw_woken s' d = true) ->
   tview s s'.
 Proof.
-  intros Hq Hh Hu Hw Hp Ht Hd. unfold awoken. split; rewrite ?Hq; try done.
-  - intros e _. unfold gq. rewrite !orb_true_iff. intros [?|?]; left; [left; by apply Hu|right; by eapply posb_mono].
-  - intros c e. unfold gt. rewrite !orb_true_iff. intros [?|?]; left; [left; by apply Hu|right; by eapply posb_mono].
-  - intros c _. unfold unp. rewrite !orb_true_iff. intros [?|?]; [left; by apply Ht|right; by eapply posb_mono].
-  - intros e d. unfold gd. rewrite !orb_true_iff. intros [[?|?]|?]; [left; left; by apply Hu|left; right; by eapply posb_mono|right; by apply Hd].
+  intros Hq Hh Hu Hw Hp Hd. split; rewrite ?Hq; try done.
+  - unfold awoken. by rewrite Hq.
+  - intros e _. unfold gq. rewrite !orb_true_iff. intros [?|?]; left; [left; by apply Hu|right; eapply posb_mono; [by apply Hw|done] ].
+  - intros c e. unfold gt. rewrite !orb_true_iff. intros [?|?]; left; [left; by apply Hu|right; eapply posb_mono; [by apply Hw|done] ].
+  - intros c Hc _. by apply Hp.
+  - intros e d _. unfold gd. rewrite !orb_true_iff. intros [[?|?]|?]; [left; left; by apply Hu|left; right; eapply posb_mono; [by apply Hw|done]|right; by apply Hd].
 Qed.
 Lemma unfreg_evs s s' e w : s'.(evs) = s.(evs) -> unfreg s' e w = unfreg s e w.
 Proof. intros H. unfold unfreg, getev. by rewrite H. Qed.
@@ -321,3 +325,112 @@ Lemma dw_woken_dws s s' d : s'.(dws) = s.(dws) -> dw_woken s' d = dw_woken s d.
 Proof. intros H. unfold dw_woken, getdw. by rewrite H. Qed.
 Lemma tokb_toks s s' c : toks s' = toks s -> tokb s' c = tokb s c.
 Proof. intros H. unfold tokb. by rewrite H. Qed.
+
+(* ---------- [cover] only looks at events, drain/double wakers and FWake / FWakeWith frames ---------- *)
+Definition relw (fr : frame) : bool := match fr with FWake _ | FWakeWith _ _ => true | _ => false end.
+Fixpoint frelw (st : list frame) : list frame :=
+  match st with [] => [] | fr :: r => if relw fr then fr :: frelw r else frelw r end.
+Lemma cntf_frelw P st : (forall fr, P fr = true -> relw fr = true) -> cntf P (frelw st) = cntf P st.
+Proof.
+  intros H. induction st as [|x st IH]; cbn; [done|]. destruct (relw x) eqn:E; cbn; [by rewrite IH|].
+  destruct (P x) eqn:E2; [rewrite (H _ E2) in E; done|by rewrite IH].
+Qed.
+Lemma existsb_frelw (f : frame -> bool) st : (forall fr, f fr = true -> relw fr = true) -> existsb f (frelw st) = existsb f st.
+Proof.
+  intros H. induction st as [|x st IH]; cbn; [done|]. destruct (relw x) eqn:E; cbn; [by rewrite IH|].
+  destruct (f x) eqn:E2; [rewrite (H _ E2) in E; done|by rewrite IH].
+Qed.
+Lemma cover_same s s' a old new e :
+  stacks s !! a = Some old -> stacks s' = <[a := new]> (stacks s) -> frelw new = frelw old ->
+  s'.(evs) = s.(evs) -> s'.(dws) = s.(dws) -> s'.(dbl) = s.(dbl) -> cover s' e = cover s e.
+Proof.
+  intros Ha Hs Hr H1 H2 H3.
+  assert (Hnp : forall w, np (is_wake w) s' = np (is_wake w) s).
+  { intros w. eapply np_same; [exact Ha|exact Hs|]. rewrite <- (cntf_frelw _ new), <- (cntf_frelw _ old), Hr; [done|by intros []|by intros []]. }
+  assert (Hew : forall w, effw s' w = effw s w) by (intros []; cbn; try done; unfold dbl_q, getdbl; by rewrite H3).
+  assert (Heq : forall w, effq s' w = effq s w).
+  { intros []; cbn; try done; [|unfold dbl_q, getdbl; by rewrite H3]. unfold getdw. rewrite H2.
+    destruct (default (DWNotWoken, None) (dws s !! d)) as [[] [w|]]; try done. }
+  assert (Hgd : forall d, gd s' e d = gd s e d).
+  { intros d. unfold gd. by rewrite (unfreg_evs _ _ _ _ H1), Hnp, (dw_woken_dws _ _ _ H2). }
+  unfold cover, getev. rewrite H1. f_equal.
+  - f_equal. induction (wakers (default ev0 (evs s !! e))) as [|w l IH]; cbn; [done|]. by rewrite Heq, IH.
+  - rewrite (exf_ext (cfr s' e) (cfr s e)).
+    + unfold exf. rewrite Hs. apply (exf_insert _ _ a old new Ha).
+      rewrite <- (existsb_frelw (cfr s e) old), <- (existsb_frelw (cfr s e) new) by (by intros []). by rewrite Hr.
+    + intros []; cbn; try done. by rewrite Hew, Hgd.
+Qed.
+
+(* frames part of the invariant for a step of a thread whose top frame is not a marker *)
+Lemma frames_other_tview s s' a fr0 rest new :
+  Inv_own s -> (forall c fr, fsat s c fr -> frame_ok s c fr = true) ->
+  stacks s !! a = Some (fr0 :: rest) -> stacks s' = <[a := new]> (stacks s) ->
+  (forall fr, fr ∈ new -> fr ∈ rest \/ frame_ok s' a fr = true) ->
+  (owned s.(qs) = true -> tview s s') ->
+  forall c fr, fsat s' c fr -> frame_ok s' c fr = true.
+Proof.
+  intros HO HI Ha Hs Hnew Htv. eapply frames_other_step'; [exact Ha|exact Hs|exact Hnew| |exact HI].
+  intros c fr Hm Hf Hok. eapply frame_ok_transfer; [apply Htv; by eapply fsat_marker_owned|exact Hf|by exists fr| |exact Hok].
+  intros Hw. by eapply fsat_work_running.
+Qed.
+
+Lemma unp_mono s s' c : (tokb s c = true -> tokb s' c = true) -> np (is_unpark c) s <= np (is_unpark c) s' -> unp s c = true -> unp s' c = true.
+Proof. unfold unp. rewrite !orb_true_iff. intros Ht Hp [?|?]; [left; by apply Ht|right; by eapply posb_mono]. Qed.
+
+(* ---------- [cover] as a Prop, and moving frames across a step ---------- *)
+Lemma cover_iff s e : cover s e = true <->
+  ((getev s e).(fired) = false /\ exists w, w ∈ (getev s e).(wakers) /\ effq s w = true)
+  \/ (exists c w, fsat s c (FWake w) /\ effq s w = true)
+  \/ (exists c d w, fsat s c (FWakeWith d w) /\ effw s w = true /\ gd s e d = true).
+Proof.
+  unfold cover. rewrite orb_true_iff, andb_true_iff, negb_true_iff, existsb_true, exf_true. split.
+  - intros [[H1 H2]|(c & fr & Hf & Hc)]; [by left|right].
+    destruct fr; try done; cbn in Hc; [right|left]; [|by exists c, w].
+    apply andb_true_iff in Hc as [? ?]. by exists c, d, w.
+  - intros [H|[(c & w & Hf & He)|(c & d & w & Hf & H1 & H2)]]; [by left| |].
+    + right. by exists c, (FWake w).
+    + right. exists c, (FWakeWith d w). split; [done|]. cbn. by rewrite H1, H2.
+Qed.
+Lemma fsat_new s s' a old new fr : stacks s !! a = Some old -> stacks s' = <[a := new]> (stacks s) -> fr ∈ new -> fsat s' a fr.
+Proof. intros Ha Hs Hin. exists new. split; [|done]. rewrite Hs, list_lookup_insert; [done|by eapply lookup_lt_Some]. Qed.
+Lemma fsat_keep s s' a old new c fr : stacks s !! a = Some old -> stacks s' = <[a := new]> (stacks s) ->
+  fsat s c fr -> (c = a -> fr ∈ old -> fr ∈ new) -> fsat s' c fr.
+Proof.
+  intros Ha Hs (st & Hc & Hin) Hk. destruct (decide (c = a)) as [->|Hne].
+  - rewrite Ha in Hc. injection Hc as <-. eapply fsat_new; [exact Ha|exact Hs|by apply Hk].
+  - exists st. split; [|done]. by rewrite Hs, list_lookup_insert_ne.
+Qed.
+(* a popped top frame: every other frame occurrence survives if the rest of the stack is kept *)
+Lemma fsat_keep_rest s s' a fr0 rest new c fr : stacks s !! a = Some (fr0 :: rest) -> stacks s' = <[a := new ++ rest]> (stacks s) ->
+  fsat s c fr -> fr <> fr0 -> fsat s' c fr.
+Proof.
+  intros Ha Hs Hf Hne. eapply fsat_keep; [exact Ha|exact Hs|exact Hf|].
+  intros _ [->|Hin]%elem_of_cons; [done|]. apply elem_of_app. by right.
+Qed.
+Lemma np_pos_wake s c w : fsat s c (FWake w) -> posb (np (is_wake w) s) = true.
+Proof. intros Hf. apply posb_true, np_pos_fsat. exists c, (FWake w). split; [done|]. cbn. by apply bool_decide_eq_true. Qed.
+
+Lemma effw_same s s' w : s'.(dbl) = s.(dbl) -> effw s' w = effw s w.
+Proof. intros H. destruct w; cbn; try done. unfold dbl_q, getdbl. by rewrite H. Qed.
+Lemma effq_same s s' w : s'.(dws) = s.(dws) -> s'.(dbl) = s.(dbl) -> effq s' w = effq s w.
+Proof.
+  intros H1 H2. destruct w; cbn; try done; [|unfold dbl_q, getdbl; by rewrite H2].
+  unfold getdw. rewrite H1. destruct (default (DWNotWoken, None) (dws s !! d)) as [[] [w|]]; try done. by apply effw_same.
+Qed.
+(* the step pops fr0 and pushes pre; events and drain/double wakers untouched *)
+Lemma cover_keep s s' a fr0 rest pre e :
+  stacks s !! a = Some (fr0 :: rest) -> stacks s' = <[a := pre ++ rest]> (stacks s) ->
+  s'.(evs) = s.(evs) -> s'.(dws) = s.(dws) -> s'.(dbl) = s.(dbl) ->
+  (forall d, np (carries d) s > 0 -> gd s e d = true -> gd s' e d = true) ->
+  (forall w, fr0 = FWake w -> effq s w = true -> cover s' e = true) ->
+  (forall d w, fr0 = FWakeWith d w -> effw s w = true -> gd s e d = true -> cover s' e = true) ->
+  cover s e = true -> cover s' e = true.
+Proof.
+  intros Ha Hs H1 H2 H3 Hgd Hw Hww. rewrite (cover_iff s e).
+  intros [(Hf & w & Hin & He)|[(c & w & Hf & He)|(c & d & w & Hf & He & Hg)]].
+  - apply cover_iff. left. unfold getev. rewrite H1. split; [done|]. exists w. split; [done|]. by rewrite (effq_same s s').
+  - destruct (decide (FWake w = fr0)) as [<-|Hne]; [by eapply Hw|].
+    apply cover_iff. right; left. exists c, w. split; [by eapply fsat_keep_rest|]. by rewrite (effq_same s s').
+  - destruct (decide (FWakeWith d w = fr0)) as [<-|Hne]; [by eapply Hww|].
+    apply cover_iff. right; right. exists c, d, w. split; [by eapply fsat_keep_rest|]. split; [by rewrite (effw_same s s')|]. apply Hgd; [|done]. apply np_pos_fsat. exists c, (FWakeWith d w). split; [done|]. cbn. by apply bool_decide_eq_true.
+Qed.
